@@ -254,10 +254,20 @@ func fixedScenarios() []fixed {
 	// misbehaving TNC: must never crash the process
 	mk("malformed-short-X-0", func(sc *scenario) { sc.ShortX = 0 })
 	mk("malformed-short-X-3", func(sc *scenario) { sc.ShortX = 3 })
-	mk("malformed-short-g-0", func(sc *scenario) { sc.ShortG = 0 })
-	mk("malformed-short-g-5", func(sc *scenario) { sc.ShortG = 5 })
-	mk("malformed-short-R-0", func(sc *scenario) { sc.ShortR = 0; sc.Version = true })
-	mk("malformed-short-R-3", func(sc *scenario) { sc.ShortR = 3; sc.Version = true })
+	// every length of the truncated replies (an off-by-one in a length guard hits exactly one of them)
+	for n := 0; n <= 11; n++ { // the full reply has 12 bytes
+		n := n
+		mk(fmt.Sprintf("malformed-short-g-%d", n), func(sc *scenario) { sc.ShortG = n })
+	}
+	for n := 0; n <= 9; n++ {
+		n := n
+		mk(fmt.Sprintf("malformed-short-R-%d", n), func(sc *scenario) { sc.ShortR = n; sc.Version = true })
+	}
+	for n := 1; n <= 2; n++ {
+		n := n
+		mk(fmt.Sprintf("malformed-short-X-%d", n), func(sc *scenario) { sc.ShortX = n })
+	}
+
 	mk("malformed-short-Y-first", func(sc *scenario) { sc.ShortYAt, sc.ShortYLen = 0, 0 })
 	mk("malformed-short-Y-third", func(sc *scenario) { sc.ShortYAt, sc.ShortYLen = 2, 3 })
 	mk("malformed-dial-badtext", func(sc *scenario) { sc.Dial = "badtext" })
